@@ -118,6 +118,24 @@ fn serve_tls(acceptor: Arc<SslAcceptor>, l: TcpListener) {
                         redirect = Some(format!("https://good.test:{}/{}/final", p, token));
                     }
                 }
+                if path.contains("/stall-head") {
+                    std::thread::sleep(Duration::from_millis(2500));
+                } else if path.contains("/stall-body") {
+                    let _ = t.write_all(b"HTTP/1.1 200 OK\r\nContent-Length: 1000\r\n\r\n0123456789");
+                    let _ = t.flush();
+                    std::thread::sleep(Duration::from_millis(2500));
+                    return;
+                } else if path.contains("/drip-body") {
+                    let _ = t.write_all(b"HTTP/1.1 200 OK\r\nTransfer-Encoding: chunked\r\n\r\nf4240\r\n");
+                    for _ in 0..40 {
+                        if t.write_all(b"d").is_err() {
+                            break;
+                        }
+                        let _ = t.flush();
+                        std::thread::sleep(Duration::from_millis(70));
+                    }
+                    return;
+                }
                 if let Some(loc) = redirect {
                     let _ = t.write_all(format!("HTTP/1.1 307 Temporary Redirect\r\nLocation: {}\r\nContent-Length: 0\r\nConnection: close\r\n\r\n", loc).as_bytes());
                 } else {
